@@ -40,6 +40,42 @@ Record cls := {
   k_store : list nat
 }.
 
+(* ------------------------------------------------------------------ attribute access *)
+(* Which code acts when an attribute of object x of the class is set / read / deleted
+   (the replacement functions _setattr / _getattribute / _delattr of
+   _replace_user_attr_methods_for_class when they are installed, else the class's own entry):
+   the per-object storage, the method the user class defines itself, or the inherited (object)
+   behaviour.  `hit` = the name is a key of the object's storage dict. *)
+Inductive target := ToStorage | ToUser (k : nat) | ToBase.
+Definition of_slot (s : slot) : target := match s with UserFn u => ToUser u | _ => ToBase end.
+Definition of_saved (o : option slot) : target := match o with Some s => of_slot s | None => ToBase end.
+Definition stored (k : cls) (x : nat) : bool := existsb (Nat.eqb x) (k_store k).
+Definition n_setattr : list N := [115; 101; 116; 97; 116; 116; 114]%N.
+Definition n_delattr : list N := [100; 101; 108; 97; 116; 116; 114]%N.
+Definition n_getattribute : list N := [103; 101; 116; 97; 116; 116; 114; 105; 98; 117; 116; 101]%N.
+
+(* _setattr: storage of an object under construction, else _tx_real_setattr with the object,
+   else super().__setattr__ *)
+Definition acting_set (k : cls) (x : nat) : target :=
+  match k_dict k n_setattr with
+  | TxFn => if stored k x then ToStorage else of_saved (k_saved k n_setattr)
+  | s => of_slot s
+  end.
+(* _getattribute: a storage hit; on a miss an object under construction gets the inherited lookup,
+   any other object _tx_real_getattribute *)
+Definition acting_get (k : cls) (x : nat) (hit : bool) : target :=
+  match k_dict k n_getattribute with
+  | TxFn => if stored k x then (if hit then ToStorage else ToBase) else of_saved (k_saved k n_getattribute)
+  | s => of_slot s
+  end.
+(* _delattr: pops a stored name; a KeyError (object not stored OR name not stored) goes to
+   _tx_real_delattr / super().__delattr__ *)
+Definition acting_del (k : cls) (x : nat) (hit : bool) : target :=
+  match k_dict k n_delattr with
+  | TxFn => if stored k x && hit then ToStorage else of_saved (k_saved k n_delattr)
+  | s => of_slot s
+  end.
+
 Section Methods.
   (* the method-name tuples of the source (Gen/SrcUserCls.v) *)
   Variable rep_names : list (list N).   (* replaced by _replace_user_attr_methods_for_class *)
@@ -115,7 +151,7 @@ Section Methods.
   | KFail (c : nat)                            (* the load raised *)
   | KFinish (c : nat).                         (* the load returned *)
   (* an event with the class state seen by the callback: _tx_instrumented and len(_tx_obj_attrs) *)
-  Record event := { e_kind : ekind; e_count : nat; e_store : nat }.
+  Record event := { e_kind : ekind; e_count : nat; e_store : nat; e_cls : cls }.
 
   (* one complete (main) load *)
   Record ctx := {
@@ -148,7 +184,7 @@ Section Methods.
   | Finish.                           (* get_model_from_str returns *)
 
   Definition ev (k : ekind) (c : cls) : event :=
-    {| e_kind := k; e_count := k_count c; e_store := length (k_store c) |}.
+    {| e_kind := k; e_count := k_count c; e_store := length (k_store c); e_cls := c |}.
 
   Definition set_ctxs (s : state) (cs : list ctx) : state :=
     {| s_cls := s_cls s; s_ctxs := cs; s_repo := s_repo s; s_next := s_next s; s_log := s_log s |}.
